@@ -109,9 +109,9 @@ Definition run_rational (dp op rn an ad bn bd cn cd : Z) : string :=
   | 7 => "ok " ++ show_q (mulv R a b)
   | 8 => show_resQ (floordivv R a b)
   | 9 => show_resQ (divv R a b)
-  | 10 => "ok " ++ show_q (kmul R a b r)
-  | 11 => show_resQ (kdiv R a b r)
-  | 12 => show_resQ (kmuldiv R a b c r)
+  | 10 => "ok " ++ show_q (kmul R a b (rn =? 1))
+  | 11 => show_resQ (kdiv R a b (rn =? 1))
+  | 12 => show_resQ (kmuldiv R a b c (rn =? 1))
   | 13 => showb (eqv R a b)
   | 14 => showb (nev R a b)
   | 15 => showb (ltv R a b)
